@@ -277,6 +277,10 @@ impl StreamReader {
 
                 match record_judge(range.clone(), decoder.consumer()) {
                     StreamAction::KeepGoing => {}
+                    // Between records (only delimiters seen so far), there is no
+                    // record to skip yet: `SkipRecord` must not leave the
+                    // `SkipSentinel` state with an empty range.
+                    StreamAction::SkipRecord if state == State::SkipSentinel => {}
                     StreamAction::SkipRecord => state = State::SkipRecord,
                     StreamAction::Stop => return Ok(None),
                 }
